@@ -278,6 +278,64 @@ fn exhaustive_c10(thorough: bool) -> Vec<Scenario> {
 	out
 }
 
+/// "A resolved ticket implies its control has run": starting takes virtual time (suspending async spawn hook), no faults.
+pub fn ticket_implies_effect(rng: &mut Rng) -> Scenario {
+	let g = *rng.pick(&[0u64, 8, 40]);
+	let alpha = [
+		Op::Start,
+		Op::Stop,
+		Op::Restart,
+		Op::Restart,
+		Op::RestartSig { sig: 15, grace_ms: g },
+		Op::RestartSig { sig: 15, grace_ms: g },
+		Op::TryRestart,
+		Op::StopSig { sig: 15, grace_ms: g },
+		Op::Run,
+		Op::Run,
+		Op::RunAsync { hold_ms: 4 },
+		Op::MarkerPrio(1),
+		Op::ToWait,
+		Op::Signal(10),
+	];
+	let mut steps = vec![Step::Burst(vec![Op::SetAsyncHook(*rng.pick(&[1u64, 3, 10]))])];
+	if rng.chance(2, 3) {
+		steps.push(Step::Burst(vec![Op::Start]));
+		steps.push(Step::Sleep(*rng.pick(&[0u64, 1, 5, 20])));
+	}
+	let len = 2 + rng.usize(6);
+	let mut burst = vec![];
+	for _ in 0..len {
+		burst.push(rng.pick(&alpha).clone());
+		match rng.below(4) {
+			0 => {}
+			1 => {
+				steps.push(Step::Burst(std::mem::take(&mut burst)));
+				steps.push(Step::AwaitLast);
+			}
+			_ => {
+				steps.push(Step::Burst(std::mem::take(&mut burst)));
+				steps.push(Step::Sleep(*rng.pick(&[0u64, 1, 2, g, g + 1, 15, 30])));
+			}
+		}
+	}
+	if !burst.is_empty() {
+		steps.push(Step::Burst(burst));
+	}
+	let behs: Vec<Behaviour> = (0..(1 + rng.usize(3)))
+		.map(|_| Behaviour {
+			self_exit: if rng.chance(1, 3) { Some(d(*rng.pick(&[5, 20, g + 5, 100]))) } else { None },
+			on_signal: if rng.chance(2, 3) { Some(d(*rng.pick(&[0, 1, g / 2, g + 1, 3 * g]))) } else { None },
+			code: 0,
+		})
+		.collect();
+	let waiters = *rng.pick(&[Waiters::TaskPerTicket, Waiters::TaskPerTicket, Waiters::Clones(2), Waiters::PollThenClone]);
+	let ending = *rng.pick(&[Ending::Delete, Ending::None, Ending::None]);
+	let mut sc = scenario(steps, behs, Faults::default(), waiters, ending);
+	sc.tail_ms = 300;
+	sc.rng_seed = rng.next_u64();
+	sc
+}
+
 pub fn random(prop: &str, rng: &mut Rng, thorough: bool) -> Scenario {
 	let g = *rng.pick(&[0u64, 1, 8, 40, 40, 250]);
 	let mut alpha = alphabet(g);
